@@ -30,7 +30,7 @@ impl IntegerColumn {
                 if min > *curr { min = *curr }
             }
         }
-        let interval = if min < 0 && max > 0 {
+        let interval = if min < 0 && max >= 0 {
             max as u64 + (-(min as i128)) as u64
         } else {
             (max - min) as u64
